@@ -48,6 +48,8 @@ def make_spec(run_seed, tier, prop, choice_weights=None, forced_prob=0.0, branch
         "cap_mass": rnd.choice([300, 600, 1200]),
         "forced": None,
     }
+    if "hub" in tags:
+        spec["cap_mass"] = min(spec["cap_mass"], 400)  # branched growth caps every open branch after every step: O(n^2) attaches
     if rnd.random() < forced_prob:
         mode = rnd.choice(["tie", "tie", "tie_minus", "tie_plus", "values"])
         if mode == "values":
@@ -227,15 +229,39 @@ def shrink_candidates(spec):
         yield c
 
 
+def print_mol(ast):
+    """print an AST without using the raw text (used by the shrinker)"""
+    from ..notation import Stoch
+
+    out = ""
+    for e in ast.elements:
+        if isinstance(e, Stoch):
+            out += "{" + e.left.text(False) + ", ".join(t.text() for t in e.repeats)
+            if e.ends:
+                out += "; " + ", ".join(t.text() for t in e.ends)
+            out += e.right.text(False) + "}" + e.dist.text()
+        else:
+            out += e.text()
+    if ast.mixture is not None:
+        kind, x = ast.mixture
+        out += (".|%r|" % x) if kind == "abs" else (".|%r%%|" % x)
+    return out
+
+
 def simpler_texts(text):
-    """Text-level simplifications that keep the string inside the workload grammar."""
+    """Input-level simplifications that keep the string inside the workload grammar: drop weights, shrink distributions,
+    drop a repeat unit / end group / block, replace a token by the simplest one of its kind."""
+    import copy
     import re
+
+    from ..notation import Stoch
 
     out = []
     # drop weights
     t = re.sub(r"\|[0-9eE.+\- ]+\|\]", "]", text)
     if t != text:
         out.append(t)
+
     # shrink distribution means
     def half(m):
         nums = [float(x) for x in m.group(2).split(",")]
@@ -253,8 +279,62 @@ def simpler_texts(text):
     t = re.sub(r"\|([a-z_]+)\(([^)]*)\)\|", half, text)
     if t != text:
         out.append(t)
+    # structural simplifications on the AST (only when no list weights are present: lists are indexed by position)
+    try:
+        ast = reader.read_molecule(text)
+        has_lists = any(d.trans is not None for tok in ast.residues() for d in tok.descs) or any(
+            e.left.trans is not None for e in ast.elements if isinstance(e, Stoch))
+        if not has_lists:
+            for ei, e in enumerate(ast.elements):
+                if isinstance(e, Stoch):
+                    if len(e.repeats) > 1:
+                        for k in range(len(e.repeats)):
+                            c = copy.deepcopy(ast)
+                            c.raw = None
+                            del c.elements[ei].repeats[k]
+                            out.append(print_mol(c))
+                    if len(e.ends) > 1:
+                        for k in range(len(e.ends)):
+                            c = copy.deepcopy(ast)
+                            c.raw = None
+                            del c.elements[ei].ends[k]
+                            out.append(print_mol(c))
+                    for k, tok in enumerate(e.repeats):
+                        if len(tok.descs) == 2 and tok.template != "{0}CC{1}":
+                            c = copy.deepcopy(ast)
+                            c.raw = None
+                            c.elements[ei].repeats[k].template = "{0}CC{1}"
+                            out.append(print_mol(c))
+                    for k, tok in enumerate(e.ends):
+                        if tok.template not in ("{0}C", "{0}[H]"):
+                            c = copy.deepcopy(ast)
+                            c.raw = None
+                            c.elements[ei].ends[k].template = "{0}C"
+                            out.append(print_mol(c))
+            # drop a whole block (and a connector next to it) when the neighbours still fit
+            stoch = [i for i, e in enumerate(ast.elements) if isinstance(e, Stoch)]
+            if len(stoch) > 1:
+                for i in stoch:
+                    c = copy.deepcopy(ast)
+                    c.raw = None
+                    del c.elements[i]
+                    # two plain tokens in a row are not in the grammar: drop an implicit connector too
+                    els = c.elements
+                    j = 1
+                    while j < len(els):
+                        if not isinstance(els[j], Stoch) and not isinstance(els[j - 1], Stoch):
+                            del els[j]
+                        else:
+                            j += 1
+                    out.append(print_mol(c))
+    except Exception:
+        pass
     good = []
+    seen = set()
     for t in out:
+        if t in seen or t == text:
+            continue
+        seen.add(t)
         try:
             reader.read_molecule(t).build()
             good.append(t)
